@@ -415,7 +415,10 @@ def cases(draw, via_weights=("summary",) * 9 + ("open_alos2",)):
         "via": draw(st.sampled_from(list(via_weights))),
     }
     if draw(st.booleans()):
-        case["corrupt"] = draw(st.lists(st.tuples(st.integers(0, 200), st.sampled_from(OPS)), min_size=1, max_size=5))
+        one = st.tuples(st.integers(0, 200), st.sampled_from(OPS))
+        # mostly a handful of damaged lines, sometimes dozens (round 14, C14n: reports capped at 20)
+        case["corrupt"] = draw(st.one_of(st.lists(one, min_size=1, max_size=5), st.lists(one, min_size=1, max_size=5),
+                                         st.lists(one, min_size=25, max_size=80)))
     return case
 
 
@@ -489,6 +492,8 @@ def classify(case):
     labels = [f"via={case['via']}", "CRLF" if case["newline"] == "\r\n" else "LF"]
     if corrupted:
         labels.append(f"corrupted={min(len(corrupted), 3)}{'+' if len(corrupted) > 3 else ''}")
+        if len(corrupted) > 20:
+            labels.append("corrupted>20")
         labels.extend(f"op={op}" for op in set(corrupted.values()))
     tricky = any(('"' in v or "=" in v) for _, attrs in exp.items() for v in attrs.values() if isinstance(v, str))
     if tricky:
